@@ -700,6 +700,108 @@ def extract_legacy(repo):
     return out
 
 
+# ---- in-place stores that may reach an array recorded earlier or handed out earlier (stateless samplers, Gibbs)
+ALIAS_FILES = [("cuqi/sampler", None), ("cuqi/experimental/mcmc", ["_gibbs.py"])]
+
+
+def _fresh_value(v, fresh):
+    """does evaluating v produce a new object (not a view / reference of something that exists already)?"""
+    if isinstance(v, (ast.Constant, ast.BinOp, ast.UnaryOp, ast.Compare, ast.BoolOp, ast.List, ast.Dict, ast.Set, ast.ListComp,
+                      ast.DictComp, ast.SetComp, ast.JoinedStr, ast.Lambda)):
+        return True
+    if isinstance(v, ast.Tuple):
+        return all(_fresh_value(x, fresh) for x in v.elts)
+    if isinstance(v, ast.Name):
+        return v.id in fresh
+    if isinstance(v, ast.Call):
+        f = v.func
+        # a method of self / of an object may return a view or a stored array: only library constructors and copies count
+        if isinstance(f, ast.Attribute):
+            if f.attr in ("copy", "flatten", "astype", "mean", "sum", "tolist"):
+                return True
+            src = ast.unparse(f)
+            return src.startswith(("np.", "numpy.", "sp.", "scipy.", "LA."))
+        if isinstance(f, ast.Name):
+            return f.id in ("int", "float", "len", "range", "list", "dict", "tuple", "min", "max", "abs", "sum", "str", "bool", "set")
+        return False
+    return False
+
+
+def _full_slice(sl):
+    parts = sl.elts if isinstance(sl, ast.Tuple) else [sl]
+    return all((isinstance(x, ast.Slice) and x.lower is None and x.upper is None and x.step is None)
+               or (isinstance(x, ast.Constant) and x.value is Ellipsis) for x in parts)
+
+
+def extract_slice_stores(repo):
+    """whole-array in-place stores  x[:] = v, x[...] = v  and augmented assignments  x op= v / x[..] op= v  whose target
+    is not an object created in the same function: such a store can reach the view of a recorded or returned chain the
+    function was handed (parameters, results of self-method calls, attributes, subscripts of those)"""
+    out = []
+    for d, only in ALIAS_FILES:
+        full = os.path.join(repo, d)
+        for fn in sorted(os.listdir(full)):
+            if not fn.endswith(".py") or (only is not None and fn not in only):
+                continue
+            tree = ast.parse(open(os.path.join(full, fn)).read())
+            for cls in [n for n in tree.body if isinstance(n, ast.ClassDef)]:
+                for f in [n for n in ast.walk(cls) if isinstance(n, ast.FunctionDef)]:
+                    fresh = set()
+                    # names bound (only) to fresh values in this function; iterate to a fixpoint for chains of names
+                    for _ in range(3):
+                        bound, notfresh = {}, set()
+                        for n in ast.walk(f):
+                            if isinstance(n, ast.Assign):
+                                for t in n.targets:
+                                    pairs = list(zip(t.elts, n.value.elts)) if (isinstance(t, (ast.Tuple, ast.List)) and isinstance(n.value, (ast.Tuple, ast.List))
+                                                                                and len(t.elts) == len(n.value.elts)) else \
+                                        ([(x, n.value) for x in t.elts] if isinstance(t, (ast.Tuple, ast.List)) else [(t, n.value)])
+                                    for x, v in pairs:
+                                        if isinstance(x, ast.Name):
+                                            (bound.setdefault(x.id, []) if _fresh_value(v, fresh) else notfresh.add(x.id))
+                            elif isinstance(n, (ast.For, ast.comprehension)):
+                                tg = n.target
+                                for x in (tg.elts if isinstance(tg, (ast.Tuple, ast.List)) else [tg]):
+                                    if isinstance(x, ast.Name) and not (isinstance(n.iter, ast.Call) and isinstance(n.iter.func, ast.Name)
+                                                                        and n.iter.func.id in ("range", "enumerate", "tqdm")):
+                                        notfresh.add(x.id)
+                                    elif isinstance(x, ast.Name):
+                                        bound.setdefault(x.id, [])
+                        fresh = set(bound) - notfresh
+                    for n in ast.walk(f):
+                        tgt = None
+                        if isinstance(n, ast.Assign):
+                            for t in n.targets:
+                                for x in (t.elts if isinstance(t, (ast.Tuple, ast.List)) else [t]):
+                                    if isinstance(x, ast.Subscript) and _full_slice(x.slice):
+                                        tgt = x
+                        elif isinstance(n, ast.AugAssign) and not _is_self_attr(n.target):
+                            tgt = n.target
+                        if tgt is None:
+                            continue
+                        base = tgt
+                        while isinstance(base, (ast.Subscript, ast.Attribute)) and not _is_self_attr(base):
+                            base = base.value
+                        if isinstance(base, ast.Name) and base.id in fresh:
+                            continue
+                        if isinstance(tgt, ast.Name):
+                            # `x op= v` on a bare name: only when x is certainly an object the function was handed (a
+                            # parameter, or bound to an attribute / element / view of one) -- results of calls are mostly
+                            # numbers (counters returned by helpers) and cannot be told apart syntactically
+                            params = set(a.arg for a in f.args.args + f.args.kwonlyargs if a.arg != "self")
+                            viewbound = set()
+                            for m in ast.walk(f):
+                                if isinstance(m, ast.Assign) and isinstance(m.value, (ast.Attribute, ast.Subscript, ast.Name)) \
+                                        and not _fresh_value(m.value, fresh):
+                                    for t in m.targets:
+                                        if isinstance(t, ast.Name):
+                                            viewbound.add(t.id)
+                            if tgt.id not in params | viewbound:
+                                continue
+                        out.append("%s.%s: %s" % (cls.name, f.name, ast.unparse(tgt)))
+    return _uniq(out)
+
+
 # ---- mirror of the checkers of Model/C14_Chain.v (the generated lemmas certify the mirror against Coq)
 def run_writes(f):
     return f["step_w"] + f["step_append"] + f["step_inplace"] + f["tune_w"] + f["hist"]
@@ -757,7 +859,7 @@ FIELDS = ["state", "hist", "step_r", "step_w", "step_wfirst", "step_append", "st
           "tune_w", "init_r", "init_w", "hidden_random"]
 
 
-def render(exp, leg, excuses):
+def render(exp, leg, excuses, stores=None):
     """Coq source of Gen_C14.v.  excuses: {class: [attrs]} used for the `excused` lemma of a class whose plain
     footprint check fails only because of hidden randomness."""
     L = ["(* generated by harness/tr_footprint.py from the source of /repo on every run; do not edit *)",
@@ -805,6 +907,12 @@ def render(exp, leg, excuses):
             L.append("Lemma legacy_%s%s_alias : legacy_alias_ok %s = %s. Proof. vm_compute. reflexivity. Qed."
                      % (c, entry, _cl(am), b(not am)))
             n += 1
+    if stores is not None:
+        L.append("(* whole-array in-place stores / augmented assignments through objects the function did not create itself\n"
+                 "   (stateless samplers, both Gibbs samplers): none may exist *)")
+        L.append("Lemma inplace_stores_through_handed_arrays : legacy_alias_ok %s = %s. Proof. vm_compute. reflexivity. Qed."
+                 % (_cl([x.replace('"', "'") for x in stores]), b(not stores)))
+        n += 1
     return "\n".join(L) + "\n", n
 
 
@@ -816,3 +924,4 @@ if __name__ == "__main__":
         print(c, json.dumps(e[c], indent=1))
         print("   footprint_ok", footprint_ok([], e[c]), footprint_reasons(e[c]), "tune_ok", tune_ok(e[c]), "reinit_ok", reinit_ok(e[c]))
     print(json.dumps(l, indent=1))
+    print("slice stores:", extract_slice_stores(repo))
